@@ -17,7 +17,7 @@ from __future__ import annotations
 
 import ast
 
-from ..facts import norm, call_name
+from ..facts import norm, call_name, dotted
 from . import shared
 
 
@@ -141,6 +141,20 @@ def check(run, ctx):
             elif isinstance(recv, ast.Subscript) and not isinstance(recv.slice, ast.Slice):
                 n_strip += 1
     run.require(n_strip >= 3, f"L7: only {n_strip} `<lines>[i].strip()` sites found (positive control: core.linter_utils.get_line_context)")
+    # identifier uses are decided on identifier nodes: a regex over the text of a composite node also sees comments and strings
+    n_ts = 0
+    for m in sorted(repo.modules.values(), key=lambda x: x.name):
+        if not (m.name.startswith("src.analyzers") or m.name.endswith("rust_analyzer") or "typescript" in m.name.rsplit(".", 1)[-1]):
+            continue
+        n_ts += 1
+        for f in [x for x in repo.funcs.values() if x.module is m and x.parent is None]:
+            for n in ast.walk(f.node):
+                if isinstance(n, ast.Call) and (dotted(n.func) or "").startswith("re.") and len(n.args) >= 2 and any(isinstance(x, ast.Attribute) and x.attr == "text" for x in ast.walk(n.args[1])):
+                    kinds_ = {v for c in ast.walk(f.node) if isinstance(c, ast.Compare) and isinstance(c.left, ast.Attribute) and c.left.attr == "type" for cc in c.comparators for v in ([repo.fold(m, cc)] if isinstance(repo.fold(m, cc), str) else [])}
+                    if kinds_ & {"identifier", "string_literal", "string", "line_comment", "comment", "integer_literal", "number"}:
+                        continue   # the text of a leaf the function has just identified by kind
+                    run.finding(L7, f.qual.replace("src.", "", 1), f"regex-over-node-text:{norm(n)[:50]}", f"{f.qual}: `{norm(n)[:80]}` searches the source text of a whole node: words inside comments and string literals count like code, so a directive-free comment that mentions a name changes what the rule concludes", f"{m.rel}:{n.lineno}")
+    run.require(n_ts >= 10, f"L7: only {n_ts} tree-sitter analyzer modules found")
     run.require(n_l7 >= 1, "L7: no sibling walk / last-child test found (positive control: rust_context._preceding_attributes)")
     return __doc__
 
